@@ -401,6 +401,12 @@ func Shapes(k Kind) []Shape {
 			{Name: "nlv-ill-formed", Class: "lang2+-bytes", NoJSON: true, Build: func(*Gen) reflect.Value { return val(nlv("-", "caf\xe9 \x85 it\x92s", "en", "cut caf\xc3")) }},
 			{Name: "nlv-untagged+tagged", Class: "lang2+-untagged", Build: func(*Gen) reflect.Value { return val(nlv("-", "plain", "fr", "bonjour")) }},
 			{Name: "nlv-tagged+untagged", Class: "lang2+-untagged", Build: func(*Gen) reflect.Value { return val(nlv("en", "hello", "-", "plain")) }},
+			// entries that agree in one component (the same text under two tags or untagged and tagged; an empty text after a
+			// non-empty one): a codec that streams the entries, or that recognises an entry by its text, confuses them
+			{Name: "nlv-same-text", Class: "lang2+-same-text", Build: func(*Gen) reflect.Value { return val(nlv("en", "same words", "fr", "same words")) }},
+			{Name: "nlv-same-text-untagged", Class: "lang2+-same-text", Build: func(*Gen) reflect.Value { return val(nlv("-", "same words", "fr", "same words")) }},
+			{Name: "nlv-later-empty-text", Class: "lang2+-empty-text", GobOnly: true, Build: func(*Gen) reflect.Value { return val(nlv("en", "Hello", "fr", "")) }},
+			{Name: "nlv-later-zero-ref", Class: "lang2+-zero-ref", GobOnly: true, Build: func(*Gen) reflect.Value { return val(nlv("en", "Hello", "", "Salut")) }},
 		}
 	case KTime:
 		return []Shape{
@@ -783,6 +789,44 @@ func BoundaryStrings(asciiOnlyAround bool) []struct{ Name, S string } {
 	return out
 }
 
+// RuneChunks returns every Unicode scalar value (U+0000..U+10FFFF without the surrogate range, which no valid UTF-8 text holds)
+// in strings of n consecutive code points, each string wrapped in ASCII letters.
+func RuneChunks(n int) []struct{ Name, S string } {
+	var out []struct{ Name, S string }
+	var b strings.Builder
+	first, cnt := rune(0), 0
+	flush := func(last rune) {
+		if cnt > 0 {
+			out = append(out, struct{ Name, S string }{fmt.Sprintf("U+%04X..U+%04X", first, last), "a" + b.String() + "z"})
+		}
+		b.Reset()
+		cnt = 0
+	}
+	for r := rune(0); r <= 0x10FFFF; r++ {
+		if r >= 0xD800 && r <= 0xDFFF {
+			continue
+		}
+		if cnt == 0 {
+			first = r
+		}
+		b.WriteRune(r)
+		cnt++
+		if cnt == n {
+			flush(r)
+		}
+	}
+	flush(0x10FFFF)
+	return out
+}
+
+// StringForms are spellings of media types, language references, units and type names as other implementations write them: letter
+// case, missing or extra blanks, quoted and reordered parameters, strings that look like JSON literals.
+var StringForms = []string{
+	"text/html;charset=utf-8", "Image/PNG", `text/plain; charset="utf-8"`, "TEXT/PLAIN; CHARSET=UTF-8", "text/plain; format=flowed; charset=utf-8",
+	"text/plain;charset=utf-8;format=flowed", `application/ld+json; profile="https://www.w3.org/ns/activitystreams"`, " text/html ", "text/html;",
+	"text/html; charset=utf-8; charset=latin1", "x", "EN-us", "en_US", "Miles", "1", "true", "null", "{}", `"quoted"`, "a,b", "a b",
+}
+
 // Degenerate yields, for struct s, every (field, empty-but-non-nil value) together with one other populated property:
 // an empty nested struct, list, language list or endpoints pointer says nothing, and must not make a codec drop its neighbours.
 func Degenerate(s *Struct, codec Codec, fn func(Recipe)) {
@@ -870,6 +914,34 @@ func Scale(fn func(Recipe)) {
 			fn(Recipe{Struct: st, TypeName: st.SpecificName(), Sets: []Set{{f, Shape{Name: "text:" + bs.Name, Class: "lang1-boundary", Build: func(*Gen) reflect.Value { return val(nlv("-", bs.S)) }}}}})
 			fn(Recipe{Struct: st, TypeName: st.SpecificName(), Sets: []Set{{f, Shape{Name: "maptext:" + bs.Name, Class: "lang2+-boundary", Build: func(*Gen) reflect.Value { return val(nlv("en", "short", "fr", bs.S)) }}}}})
 		}
+	}
+	// every Unicode scalar value, in texts of 128 consecutive code points (untagged, and as the second entry of a map)
+	for _, rc := range RuneChunks(128) {
+		rc := rc
+		for _, p := range textPos[:2] {
+			st := ByName(p.st)
+			f := *st.Field(p.field)
+			fn(Recipe{Struct: st, TypeName: st.SpecificName(), Sets: []Set{{f, Shape{Name: "text:" + rc.Name, Class: "lang1-runes", Build: func(*Gen) reflect.Value { return val(nlv("-", rc.S)) }}}}})
+		}
+		st := ByName("Object")
+		f := *st.Field("Summary")
+		fn(Recipe{Struct: st, TypeName: st.SpecificName(), Sets: []Set{{f, Shape{Name: "maptext:" + rc.Name, Class: "lang2+-runes", Build: func(*Gen) reflect.Value { return val(nlv("en", "short", "fr", rc.S)) }}}}})
+	}
+	// spellings of string-typed properties that a codec must carry unchanged: it has no business normalising them
+	for _, form := range StringForms {
+		form := form
+		for _, p := range []pos{{"Object", "MediaType"}, {"Link", "MediaType"}, {"Place", "Units"}, {"Link", "HrefLang"}, {"Tombstone", "FormerType"}} {
+			st := ByName(p.st)
+			f := *st.Field(p.field)
+			fn(Recipe{Struct: st, TypeName: st.SpecificName(), Sets: []Set{{f, Shape{Name: "strform:" + form, Class: "string-form", Build: func(*Gen) reflect.Value {
+				return reflect.ValueOf(form).Convert(f.Type)
+			}}}}})
+		}
+		st := ByName("Object")
+		f := *st.Field("Source")
+		fn(Recipe{Struct: st, TypeName: st.SpecificName(), Sets: []Set{{f, Shape{Name: "srcform:" + form, Class: "string-form", Build: func(*Gen) reflect.Value {
+			return val(ap.Source{Content: nlv("-", "raw"), MediaType: ap.MimeType(form)})
+		}}}}})
 	}
 	strPos := []pos{{"Object", "MediaType"}, {"Place", "Units"}, {"Link", "HrefLang"}, {"Tombstone", "FormerType"}, {"Object", "URL"}, {"Link", "Href"}, {"Actor", "Inbox"}}
 	for _, bs := range BoundaryStrings(true) {
